@@ -352,6 +352,8 @@ async fn builder_path(path: u8) -> Result<String, String> {
     let tc = || {
         let mut t = quinn::TransportConfig::default();
         t.max_idle_timeout(Some(quinn::IdleTimeout::try_from(Duration::from_secs(7)).unwrap()));
+        // a caller-supplied transport configuration is taken as it is, keep-alive included
+        t.keep_alive_interval(Some(Duration::from_secs(2)));
         t
     };
     let stls = || wtransport::tls::server::build_default_tls_config(identity());
@@ -366,13 +368,16 @@ async fn builder_path(path: u8) -> Result<String, String> {
             cb.with_custom_tls_and_transport(ctls(), tc()).build()
         }),
         3 => (sb.with_custom_tls_and_transport(stls(), tc()).build(), cb.with_custom_tls_and_transport(ctls(), tc()).build()),
+        // only one side brings the custom transport configuration
+        5 => (sb.with_custom_transport(identity(), tc()).build(), cb.with_no_cert_validation().build()),
+        6 => (sb.with_identity(identity()).build(), cb.with_custom_tls_and_transport(ctls(), tc()).build()),
         _ => {
             let s = ServerConfig::builder().with_bind_default(0).with_identity(identity()).build();
             let c = ClientConfig::builder().with_bind_default().with_no_cert_validation().build();
             (sb.build_with_quic_config(s.quic_config().clone()), cb.build_with_quic_config(c.quic_config().clone()))
         }
     };
-    if matches!(path, 2 | 3) {
+    if matches!(path, 2 | 3 | 5) {
         let d = format!("{:?}", scfg.quic_config().transport);
         if !d.contains("7000") {
             return Err(format!("custom transport config not applied: {d}"));
@@ -391,6 +396,20 @@ async fn builder_path(path: u8) -> Result<String, String> {
     let hd = cconn.handshake_data();
     if hd.alpn() != Some(b"h3") {
         return Err(format!("negotiated ALPN {:?}", hd.alpn()));
+    }
+    if matches!(path, 2 | 3 | 5 | 6) {
+        // 7 s idle timeout and a 2 s keep-alive from the custom transport configuration: a silent session on a healthy network
+        // is still there after 30 s, and usable
+        if let Some(e) = within(30_000, cconn.closed()).await {
+            return Err(format!("custom transport with idle timeout 7 s and keep-alive 2 s: the silent connection ended with {e:?}"));
+        }
+        let mut s = cconn.open_uni().await.map_err(|e| format!("{e:?}"))?.await.map_err(|e| format!("{e:?}"))?;
+        s.write_all(b"still here").await.map_err(|e| format!("{e:?}"))?;
+        let mut r = within(2_000, sconn.accept_uni()).await.ok_or("stream not delivered after 30 s of silence")?.map_err(|e| format!("{e:?}"))?;
+        let mut b = [0u8; 10];
+        r.read_exact(&mut b).await.map_err(|e| format!("{e:?}"))?;
+        drop(sconn);
+        return Ok("session established, h3, custom keep-alive honoured".into());
     }
     drop(sconn);
     Ok("session established, h3".into())
@@ -674,7 +693,7 @@ pub fn scenarios(tier: Tier) -> Vec<Sc> {
             out.push(Sc::Alpn { offer, role_server: role });
         }
     }
-    for p in 0..5u8 {
+    for p in 0..7u8 {
         out.push(Sc::BuilderPath { path: p });
     }
     let ts: Vec<u64> = if tier >= Tier::Deep { vec![u64::MAX, 200, 1_000, 2_000, 5_000, 29_000, 31_000, 600_000, 3_600_000, 0] } else if thorough { vec![u64::MAX, 1_000, 5_000, 600_000, 0] } else { vec![u64::MAX, 1_000, 5_000, 0] };
@@ -708,7 +727,7 @@ pub fn run_check(args: &Args) -> i32 {
     let rep = Report::new(
         args,
         "exploration",
-        "complete configuration matrices: binding (server/client x 13 ways: six IpBindConfig presets, explicit v4 / v6 address, with_bind_address_v6 x three dual-stack settings, with_bind_default, pre-bound socket; observed on the socket the endpoint would bind and through Endpoint::server / client + local_addr on real OS sockets); TLS defaults (ALPN list, protocol versions) and ALPN negotiation against raw peers offering h3 / hq-29 / both / nothing in both roles; every builder path (identity, custom TLS, custom transport, custom TLS + transport, prebuilt QUIC config) handshaking on the simulated network; idle timeout on each side in {builder default, 1 s, 5 s, (10 min), disabled} x keep-alive off / T/3 x network partition / idle healthy network, measured in virtual time; representability of max_idle_timeout (0, 1 ms, 30 s, 2^62-1 ms, 2^62 ms, 2^62+1, 2^63, 2^64-1, 2^64, 2^64+1500, 2^64+2^62-1, 3*2^64+7, 999*2^64+30000 ms, 2^62 s, 2^63 s, u64::MAX s, Duration::MAX); client migration with allow_migration on / off; reload_config (identity and transport of new connections, established connection undisturbed)",
+        "complete configuration matrices: binding (server/client x 13 ways: six IpBindConfig presets, explicit v4 / v6 address, with_bind_address_v6 x three dual-stack settings, with_bind_default, pre-bound socket; observed on the socket the endpoint would bind and through Endpoint::server / client + local_addr on real OS sockets); TLS defaults (ALPN list, protocol versions) and ALPN negotiation against raw peers offering h3 / hq-29 / both / nothing in both roles; every builder path (identity, custom TLS, custom transport, custom TLS + transport, prebuilt QUIC config, custom transport on one side only) handshaking on the simulated network, the custom transport's own idle timeout and keep-alive honoured over 30 s of silence; idle timeout on each side in {builder default, 1 s, 5 s, (10 min), disabled} x keep-alive off / T/3 x network partition / idle healthy network, measured in virtual time; representability of max_idle_timeout (0, 1 ms, 30 s, 2^62-1 ms, 2^62 ms, 2^62+1, 2^63, 2^64-1, 2^64, 2^64+1500, 2^64+2^62-1, 3*2^64+7, 999*2^64+30000 ms, 2^62 s, 2^63 s, u64::MAX s, Duration::MAX); client migration with allow_migration on / off; reload_config (identity and transport of new connections, established connection undisturbed)",
     );
     rep.assume("bind rows use real UDP sockets on the loopback / wildcard addresses; IPv6 rows are reported as uncovered when ::1 cannot be bound; the OS default for IPV6_V6ONLY is read from /proc/sys/net/ipv6/bindv6only");
     let scs = scenarios(args.tier);
